@@ -87,6 +87,33 @@ func (c *Cluster) spawnGenerate(n *Node, client, account string, t, parts uint32
 	return out
 }
 
+// spawnGenerateRetrying is spawnGenerate for a client that asks again (up to attempts times) when it is told the
+// generation failed; the outcome is that of its last attempt.
+func (c *Cluster) spawnGenerateRetrying(n *Node, client, account string, t, parts uint32, attempts int) *dkgOutcome {
+	out := &dkgOutcome{}
+	c.S.Spawn("generate:"+account, n.Inst, func(_ *Task) {
+		defer func() {
+			if r := recover(); r != nil {
+				out.Panic = fmt.Sprint(r)
+				n.Panicked = "generate: " + out.Panic
+			}
+			out.Done = true
+		}()
+		for a := 0; a < attempts; a++ {
+			res, err := n.Inst.AcctH.Generate(n.Inst.ClientCtx(client, ""), &pb.GenerateRequest{Account: account, Passphrase: []byte("pass"), SigningThreshold: t, Participants: parts})
+			if err != nil {
+				out.State, out.Message = pb.ResponseState_FAILED, err.Error()
+				continue
+			}
+			out.State, out.PubKey, out.Participants, out.Message = res.GetState(), res.GetPublicKey(), res.GetParticipants(), res.GetMessage()
+			if out.State == pb.ResponseState_SUCCEEDED {
+				return
+			}
+		}
+	})
+	return out
+}
+
 // storedAccount reads an account back from a node's wallet store (not from any cache).
 func (n *Node) storedAccount(path string) e2wtypes.Account {
 	var wname, aname string
@@ -448,7 +475,13 @@ func runDKG(t *testing.T, rc *RunCtx) {
 			}
 			rc.Stats.Inc("probe_two_generations_of_one_name_at_once", 1)
 		}
-		outB = c.spawnGenerate(c.Nodes[ch.Pick(len(c.Nodes), 0)], "client2", pathB, uint32(thB), uint32(n))
+		if pathB == path && ch.Pick(2, 0) == 1 {
+			// the second client asks again at once when it is refused
+			outB = c.spawnGenerateRetrying(c.Nodes[ch.Pick(len(c.Nodes), 0)], "client2", pathB, uint32(thB), uint32(n), 2+ch.Pick(2, 0))
+			rc.Stats.Inc("probe_second_client_retries", 1)
+		} else {
+			outB = c.spawnGenerate(c.Nodes[ch.Pick(len(c.Nodes), 0)], "client2", pathB, uint32(thB), uint32(n))
+		}
 		rc.Stats.Inc("concurrent_generations", 1)
 	}
 	outcome := s.Run()
